@@ -4,6 +4,10 @@ Import ListNotations.
 Require Import MayV.Sync.SemModel MayV.Sync.SemInv MayV.Sync.SemTac MayV.Sync.SemLive MayV.Sync.SemLiveA.
 Open Scope Z_scope.
 
+Ltac upd_hyps := repeat match goal with
+  | H : context [upd ?f ?i ?v ?i] |- _ => rewrite (upd_eq f i v) in H
+  | H : context [upd ?f ?i ?v ?j] |- _ => rewrite (upd_neq f i j v) in H by (first [assumption | congruence | lia])
+  end.
 Ltac ctxsplit s a := try (destruct (actx (A s a)) eqn:Ectx; cbn [ret_pc] in * ).
 Ltac pcs := repeat match goal with E : apc _ = _ |- _ => rewrite E in * end; cbn [apc actx] in *.
 
@@ -12,8 +16,10 @@ Proof.
   intros Hi HL H. pose proof (IL3 _ _ HL) as P3. unfold L3, att, own, attpc, inpark in *.
   lsetup Hi H; intro x; pose proof (P3 x) as Px; pose proof (P3 (ab (A s a))) as Pb; pose proof (P3 (aw (A s a))) as Pw.
   all: a_facts Hi a; b_facts Hi x; b_facts Hi (ab (A s a)); b_facts Hi (aw (A s a)); b_facts Hi (nextb s).
-  all: unfold set_pc, set_ctx, set_res, set_av; upd_tac; prj_all; lists.
+  all: unfold set_pc, set_ctx, set_res, set_av; upd_tac; upd_hyps; prj_all; lists.
   all: repeat match goal with e : ?v = _ |- _ => is_var v; subst v end.
+  all: repeat match goal with e : owner _ = _ |- _ => progress (rewrite e in * ) end.
   all: ctxsplit s a; pcs.
   all: intros; brk; arith_prem; brk; try mem.
+  all: destruct Px as [[Px _]|Px]; [subst x|mem]; destruct (rel (Bk s (ab (A s a)))) eqn:Erel; brk; mem.
 Qed.
